@@ -32,8 +32,10 @@ ASSUMPTIONS = ["ints are mathematical (exact for Python)", "index names within o
 
 
 def registry():
-    reg = {c.name: c for c in cm.ALL}
-    reg.update({c.short: c for c in cm.ALL if "." not in c.name})
+    from contracts import shape as cshape
+    allc = cm.ALL + cshape.ALL
+    reg = {c.name: c for c in allc}
+    reg.update({c.short: c for c in allc if "." not in c.name})
     return reg
 
 
@@ -89,6 +91,7 @@ def _odim_gen(rng, tier):
 
 
 def proof_items():
+    from contracts import shape as cshape
     return [
         ProofItem(cm.shape_to_strides, bounds={"ints": (0, 1, 2, 3), "maxlen": 3}),
         ProofItem(cm.shape_to_key, bounds={"ints": (-1, 0, 1, 2, 3, 5, 7), "maxlen": 3, "per_len": 60}),
@@ -106,6 +109,12 @@ def proof_items():
         ProofItem(cm.mapspec_input_keys, gen=_okey_gen),
         # what shape() rejects: surplus / missing arrays, rank mismatch, internal shape for a non-output
         ProofItem(cm.validate_shapes, gen=_vshape_gen),
+        # shape(): mask[p] <=> some input carries output axis p; a mapped axis has the size every input has along it,
+        # an internal axis the next entry of the output's internal shape; ValueError exactly for what _validate_shapes
+        # rejects, a zipped-size mismatch or a missing / short internal shape
+        ProofItem(cshape.mapspec_shape, gen=cshape.shape_gen, thorough_only=True),
+        ProofItem(cshape.get_common_dim, gen=cshape.gcd_gen, bounded_only=True,
+                  why_bounded="nested function definition and starred unpacking of a generator"),
     ]
 
 
